@@ -10,6 +10,10 @@ fn main() {
         eprintln!("usage: vf <Cxx> [--tier quick|thorough] [--seed N] [--replay path]");
         std::process::exit(2);
     }
+    if args[1] == "child-generate" {
+        // child mode for syscall-level fault injection (C23): run the real, unhooked generator and exit
+        std::process::exit(vf_harness::faults::child_generate(args.get(2).map(|s| s.as_str()).unwrap_or("")));
+    }
     let prop = args[1].clone();
     let mut tier = match std::env::var("VERIF_TIER").ok().as_deref() {
         Some("thorough") => Tier::Thorough,
@@ -64,6 +68,7 @@ fn main() {
             "C16" => vf_harness::artifacts::run_c16(&ctx),
             "C17" => vf_harness::artifacts::run_c17(&ctx),
             "C18" => vf_harness::artifacts::run_c18(&ctx),
+            "C23" => vf_harness::faults::run_c23(&ctx),
             "C28" => vf_harness::policy::run_c28(&ctx),
             "C29" => vf_harness::policy::run_c29(&ctx),
             _ => {
